@@ -217,6 +217,24 @@ CLAIMED = {
          'tick; BaseExceptions that are not Exceptions and nested doInTransaction outside the property.'),
    technique='Coq proof (all bodies x all raise points x all schedules of an executable hub/transaction model) + vm_compute correspondence against file-backed sqlite with real threads',
    design='3/C08, docs/notes/C08.md'),
+ 'C09': dict(
+   text=('Machine-checked proof (Coq 8.16.1) over Model/CacheConc.v, a small-step interleaving semantics with one transition per executed '
+         'source statement of CacheFactory.get/put/finishPut/created/cull/expire/expireAll/getAll, CacheSet.* and the cache-relevant statements '
+         'of SQLObject.get/_SO_finishCreate/expire/sqlmeta.expireAll (lock acquire blocks, release of a free lock and iteration over a resized '
+         'dict raise): for ANY number of threads, any programs over get-hit/get-miss/get-of-missing-row/first-use/create/expire/expireAll/cull '
+         'and ANY schedule, every reachable state satisfies the invariant (entries well keyed; at most one live registered object per row per '
+         'purge epoch; every live registered object reachable through the cache; lock held iff its holder is in a critical region) '
+         '(C09_inv_partial, C09_safe_partial), quiescent states have the lock free, only not-found raised and one object per row '
+         '(C09_quiescent_partial), and no reachable state deadlocks (C09_no_deadlock_partial). The guard excludes exactly the open finding '
+         '(create racing a get-miss of the row being created), which has refutation witnesses. The statement skeleton of 24 methods is '
+         're-extracted from source on every run (Tie A-lite); real threads are driven line by line by a deterministic scheduler and every '
+         'schedule is replayed inside Coq (Tie B), exhaustively up to a preemption bound.'),
+   note=('Partial by nature: thread switches only between source statements (no bytecode-level preemption), garbage collection as immediate '
+         'refcounting, weakref callbacks and OS scheduling not exhibited; cache=True in the model (cache=False judged by the oracle only); '
+         'unpickling, destroySelf, sync outside the operation list. Trusted: Coq kernel; tools/sched (sys.settrace scheduler, cooperative lock), '
+         'tools/sched/expected.py (which statements touch shared state).'),
+   technique='Coq proof (invariant preservation per program point of an interleaving semantics, any threads/programs/schedules) + source skeleton extraction + deterministic line-level scheduler replayed in Coq (vm_compute)',
+   design='3/C09, docs/notes/C09.md'),
  'C16': dict(
    text=('Machine-checked proof (Coq 8.16.1) over the ORM model Model/Orm.v: for every history (any operations, failures, injected faults, '
          'out-of-band SQL, any cache configuration) the dirty flag of every held object is true exactly while assignments are pending '
